@@ -187,7 +187,7 @@ def hRpTraitsSet (db : DB R) (uuid gen : Nat) (traits : List Nat) : DB R × Resp
     else if traits.any (fun t => !db.traits.contains t) then (db, r400)
     else match setTraits db rp.id rp.gen traits with
       | .ok db' => (db', r200)
-      | .error _ => (db, r500)     -- ConcurrentUpdateDetected is not caught by this handler
+      | .error e => if e.isConcurrentUpdate then (db, r409 .concurrentUpdate) else (db, r500)
 
 def hRpTraitsDelete (db : DB R) (uuid : Nat) : DB R × Resp :=
   match db.rpByUuid uuid with
